@@ -12,6 +12,7 @@ from functools import cached_property, partial
 from types import FunctionType, GenericAlias
 
 from . import _verif
+from .dependent import DependentType
 from .recode import (
     Conformer,
     adapt_function,
@@ -150,6 +151,9 @@ class Arginfo:
             # intersections: arguments there may be types themselves
             if isinstance(t, GenericAlias):
                 return True
+            if isinstance(t, DependentType):
+                # Dependent[type[A], cond], Literal[SomeClass]
+                return complex_type(t.bound)
             return hasattr(t, "_handler") and any(
                 complex_type(t2) for t2 in getattr(t, "__args__", ())
             )
